@@ -80,6 +80,10 @@ class _DatetimeMeta(type):
     def __instancecheck__(cls, inst):
         return isinstance(inst, _dt.datetime)
 
+    def __getattr__(cls, name):
+        # everything but now() is the real class's (fromisoformat, combine, min, max, ...)
+        return getattr(_dt.datetime, name)
+
 
 class _FixedDatetime(metaclass=_DatetimeMeta):
     """Stands in for `datetime.datetime` inside odml.dtypes: `now()` is a fixed instant, every
